@@ -19,6 +19,7 @@ echo "--- suite WITH patch (must pass):"
 go build ./... && go test -vet=off -count=1 ./... 2>&1 | grep -v "no test files" | grep -v "^ok" ; echo "suite rc=$?  (1 = no failing package lines)"
 cd /verif
 git -C /repo worktree remove --force $WT
+[ -n "$NOAPPLY" ] && exit 0   # NOAPPLY=1: only the confirmation in the scratch worktree
 echo "--- checks on /repo with the patch applied:"
 git -C /repo apply $SD/patch.diff || exit 2
 for id in "$@"; do
